@@ -64,6 +64,7 @@ func init() {
 		RuleK9(r, c)
 		RuleK10(r, p)
 		RuleK10c(r, c)
+		RuleBCD(r, p)
 		RuleListenSibling(r, p)
 	}
 
@@ -82,6 +83,8 @@ func init() {
 		RuleAPI(r, p, declareAPI(r, []string{"A0", "A3"}, map[string]int{"A3": 60, "A0": 0}), nil)
 		RuleTransport(r, p, aspectSet{"T5": true, "T11": true})
 		RuleReadBuffers(r, p)
+		RuleBCD(r, p)
+		RuleK10Only(r, p, map[string]bool{"K10a": true})
 	}
 
 	checks["C04"] = func(r *Report, p *Program, tier string) {
@@ -114,6 +117,8 @@ func init() {
 		RuleK7(r, c)
 		RuleK9(r, c)
 		RuleF4(r, p)
+		RuleZone(r, p, c)
+		RuleK10c(r, c)
 	}
 
 	checks["C06"] = func(r *Report, p *Program, tier string) {
